@@ -219,7 +219,13 @@ pub fn run(ctx: &mut Ctx) -> ShardResult {
             }
             "frame" => {
                 crate::eng_load::capture_stdout_begin();
-                check_frame(case["counts_small"].as_u64().unwrap_or(0) as usize, &msg, case["seconds"].as_u64().unwrap_or(0), width, case["line"].as_str(), &job, &mut res);
+                // The terminal may have had another width when the process
+                // painted its first frame (a resize during the build).
+                if let Some(first) = case["first_width"].as_u64() {
+                    let mut scratch = ShardResult::default();
+                    check_frame(0, "x", 0, first as usize, None, first as usize, &job, &mut scratch);
+                }
+                check_frame(case["counts_small"].as_u64().unwrap_or(0) as usize, &msg, case["seconds"].as_u64().unwrap_or(0), width, case["line"].as_str(), case["first_width"].as_u64().unwrap_or(width as u64) as usize, &job, &mut res);
                 crate::eng_load::capture_stdout_end();
             }
             other => panic!("unknown render replay kind {}", other),
@@ -329,9 +335,16 @@ pub fn run(ctx: &mut Ctx) -> ShardResult {
             crate::exec::install_hooks();
             crate::eng_load::capture_stdout_begin();
             let mut idx = 0u64;
-            for width in 10..=300u64 {
+            // Widths are visited from wide to narrow inside one process: the
+            // terminal is resized between frames, and a width remembered from
+            // an earlier frame would make later rows too long.
+            let mut first_width = 0usize;
+            for width in (10..=300u64).rev() {
                 if width % ctx.nshards != ctx.shard {
                     continue;
+                }
+                if first_width == 0 {
+                    first_width = width as usize;
                 }
                 for &s in &[0u64, 5, 1000, 1_000_000] {
                     for ch in CHARS {
@@ -343,7 +356,7 @@ pub fn run(ctx: &mut Ctx) -> ShardResult {
                             for line in [None, Some(m.as_str())] {
                                 idx += 1;
                                 ctx.marker.set(idx, m.as_bytes());
-                                check_frame((idx % 5) as usize, &m, s, width as usize, line, &job, &mut res);
+                                check_frame((idx % 5) as usize, &m, s, width as usize, line, first_width, &job, &mut res);
                             }
                         }
                     }
@@ -358,7 +371,7 @@ pub fn run(ctx: &mut Ctx) -> ShardResult {
 
 /// One whole frame of the display through the real print_progress, at a
 /// forced terminal width.  Output goes to the worker's stdout (discarded).
-fn check_frame(counts_small: usize, msg: &str, seconds: u64, width: usize, line: Option<&str>, job: &str, res: &mut ShardResult) {
+fn check_frame(counts_small: usize, msg: &str, seconds: u64, width: usize, line: Option<&str>, first_width: usize, job: &str, res: &mut ShardResult) {
     res.evaluations += 1;
     crate::exec::install_hooks();
     crate::exec::set_cols(Some(Some(width)));
@@ -403,14 +416,14 @@ fn check_frame(counts_small: usize, msg: &str, seconds: u64, width: usize, line:
                 Some(b) => res.violation(
                     "frame-line-wider-than-terminal",
                     || format!("print_progress at width {} with message {:?} ({} s), last line {:?}: {}", width, msg, seconds, line, b),
-                    || json!({"job": job, "kind": "frame", "counts_small": counts_small, "msg": msg, "seconds": seconds, "width": width, "line": line}),
+                    || json!({"job": job, "kind": "frame", "counts_small": counts_small, "msg": msg, "seconds": seconds, "width": width, "line": line, "first_width": first_width}),
                 ),
             }
         }
         Err(p) => res.violation(
             &p.key(),
             || format!("print_progress at width {} with message {:?} ({} s), last line {:?} panicked: {} at {}", width, msg, seconds, line, p.message, p.location),
-            || json!({"job": job, "kind": "frame", "counts_small": counts_small, "msg": msg, "seconds": seconds, "width": width, "line": line}),
+            || json!({"job": job, "kind": "frame", "counts_small": counts_small, "msg": msg, "seconds": seconds, "width": width, "line": line, "first_width": first_width}),
         ),
     }
 }
